@@ -2324,6 +2324,7 @@ class Parameters:
         for method, queued, on_init, constant, dynamic in type(obj).param._depends['watch']:
             # On initialization set up constant watchers; otherwise
             # clean up previous dynamic watchers for the updated attribute
+            all_dynamic, root = dynamic, attribute
             dynamic = [d for d in dynamic if attribute is None or d.spec.split(".")[0] == attribute]
             if init:
                 constant_grouped = defaultdict(list)
@@ -2337,6 +2338,10 @@ class Parameters:
             elif dynamic:
                 for w in obj._param__private.dynamic_watchers.pop(method, []):
                     (w.cls if w.inst is None else w.inst).param.unwatch(w)
+                # All the dynamic watchers of the method have just been
+                # removed, also those of dependencies rooted at another
+                # attribute: every one of them has to be set up again.
+                dynamic, root = all_dynamic, None
             else:
                 continue
 
@@ -2347,7 +2352,7 @@ class Parameters:
                     grouped[(id(dep.inst), id(dep.cls), dep.what)].append((ddep, dep))
 
             for group in grouped.values():
-                watcher = self_._watch_group(obj, method, queued, group, attribute)
+                watcher = self_._watch_group(obj, method, queued, group, root)
                 obj._param__private.dynamic_watchers[method].append(watcher)
         for m in init_methods:
             m()
